@@ -1,5 +1,5 @@
 /* Writer functions under DFCC contracts.  Real code: /repo/mtbl/writer.c (included), varint.c (linked). */
-#include "/repo/mtbl/writer.c"
+#include "mtbl/writer.c"
 #include "spec/writer.spec.h"
 
 void h_write_block(void)
